@@ -74,6 +74,22 @@ def vectors(ctx):
         add(f, 0, tag="rand", cs=rng.choice([0, 0, 1, 2 + k]))
         if k % 50 == 0:
             add(f, k % 2, "crc_legacy", tag="rand")
+    # (5b) frames whose last 24 bits repeat an earlier part of the frame (text-level shortcuts), both modes, any case
+    for df in (0, 4, 5, 11, 16, 17, 20, 21):
+        for f in gen.selfsimilar(rng, df):
+            add(f, 0, tag="selfsim", cs=rng.choice([0, 1, 2 + df]))
+            add(f, 1, tag="selfsim", cs=rng.choice([0, 1, 2 + df]))
+    # (5c) call histories: related frames (shared prefix across the two lengths, same data with another parity field, same
+    # frame in another letter case) one after the other in one process - each result may depend on its own argument only
+    for k in range(ctx.pick(400, 20000)):
+        s7 = gen.rand_frame(rng, 7) if k % 2 else gen.with_parity([rng.randrange(256) for _ in range(4)])
+        l14 = s7[:4] + [rng.randrange(256) for _ in range(10)]
+        l14b = l14[:11] + [rng.randrange(256) for _ in range(3)]
+        pool = [s7, l14, l14b, s7[:4] + [rng.randrange(256) for _ in range(3)], gen.with_parity(l14[:11])]
+        calls = []
+        for _ in range(rng.randint(2, 5)):
+            calls.append({"frame": rng.choice(pool), "enc": rng.randrange(2), "cs": rng.choice([0, 0, 1, 2 + k])})
+        V.append({"fn": "crc.seq", "calls": calls, "tag": "seq"})
     # (6) error injection into valid frames: weight 1..5 and bursts <= 24 at every offset
     bases = []
     for n in (14, 7):
@@ -115,6 +131,8 @@ def vectors(ctx):
 
 
 def case_of(e):
+    if e["fn"] == "crc.seq":
+        return ("seq", tuple((bytes(c["frame"]), c["enc"]) for c in e["calls"]))
     if not any(e["frame"]):
         return None
     return (e["fn"], e["enc"], bytes(e["frame"]))
